@@ -76,6 +76,9 @@ type Script struct {
 	// PreStart: the producer is started (and has filled the input or is blocked in its first
 	// write) before the discipline is created
 	PreStart bool `json:"producer_started_before_creation,omitempty"`
+	// SecondInstance (v1 stop plans): after Stop has returned a second discipline of the same kind
+	// and element type is run to its end before the kept slices are compared
+	SecondInstance bool `json:"second_instance_after_stop,omitempty"`
 }
 
 // Out is one delivered slice as observed.
@@ -572,6 +575,31 @@ func execute1(t *testing.T, s Script, leakScan bool, budget time.Duration) Trace
 			}
 			time.Sleep(time.Duration(wait))
 			bubble.Wait()
+			if s.SecondInstance {
+				// "never touched again" also holds against other instances: a second discipline of
+				// the same element type is created, fed and read to its end while the slices of the
+				// stopped one are still kept
+				in2 := make(chan int, 4)
+				s2 := s
+				s2.Stop = nil
+				if d2, err := mk(s2, in2, make(chan []int)); err == nil {
+					go func() {
+						for i := 0; i < int(min(s.J, 64))*2+1; i++ {
+							in2 <- 5000000 + i
+						}
+						close(in2)
+					}()
+					for range d2.outFn() {
+						if s.NoCopy {
+							d2.release(make(chan struct{}))
+						}
+					}
+					if d2.cancel != nil {
+						d2.cancel()
+					}
+				}
+				bubble.Wait()
+			}
 			for i := range tr.Outs {
 				o := &tr.Outs[i]
 				if o.Scribble || (s.NoCopy && o.Released) {
